@@ -199,6 +199,15 @@ class NumEval:
             # literal dictionaries: d['k'] is the entry written in the literal; module-level
             # constant tables are looked through
             base_t = t[1]
+            if t[2][0] == 'bin':
+                # an index computed from integer constants (offset + unrolled loop index)
+                from . import poly
+                try:
+                    kc = poly.is_const(poly.to_poly(t[2]))
+                except Exception:       # noqa: BLE001
+                    kc = None
+                if kc is not None and int(kc) == kc:
+                    t = ('sub', t[1], ('const', int(kc)))
             if base_t[0] == 'global':
                 from .util import global_value_term
                 gv = global_value_term(self.repo, base_t[1])
